@@ -1,5 +1,6 @@
 import Duckling.Model.Expr
 import Duckling.Lemmas.Prec
+import Duckling.Lemmas.RBasic
 /-
   C04 — expressions evaluate with the documented precedence and typing.
 
@@ -16,9 +17,9 @@ import Duckling.Lemmas.Prec
   * `C04_int_arith`             on integers `+ - * // %` are the integer operations (floor division and modulo);
   * `C04_comparisons`           the six comparisons on integers;
   * `C04_integral_is_int`       an integral float is normalised to an integer at every parenthesis level;
-  * `C04_not`                   `!( )` negates the truth value of the parenthesised expression.
+  * `C04_not`                   `!( )` yields the negated truth value of what the parenthesised text evaluates to.
   Stage B (the character scanner recognises every rendering of an expression) is validated by the
-  correspondence only (DESIGN.md C04) — `C04_partial` in that respect.
+  correspondence only (DESIGN.md C04) — `partial` in that respect.
 -/
 namespace Duckling.Props.C04
 open Duckling
@@ -88,5 +89,28 @@ theorem C04_comparisons (a b : Int) :
     · by_cases h2 : a < b <;> simp [compare, compareOfLessAndEq, h, h2]
 
 theorem C04_integral_is_int (m : Int) : (Val.flt m 0).normalise = .int m ∧ (∀ i, (Val.int i).normalise = .int i) := ⟨rfl, fun _ => rfl⟩
+
+/-- `!( … )`: the negated truth value of what the parenthesised text evaluates to (errors are the same errors) -/
+theorem C04_not (vars : VarEnv) (f : Nat) (s : Str) :
+    solveOpp vars (f + 1) s true = (solveOpp vars (f + 1) s false >>= fun v => .ok (.bool (!v.truthy))) := by
+  simp only [solveOpp]
+  cases lex (vars.map (·.1)) s with
+  | ok toks =>
+    simp only [Outcome.bind_ok]
+    cases toFlat toks with
+    | none => rfl
+    | some hp =>
+      obtain ⟨h, ps⟩ := hp
+      simp only []
+      split
+      · rfl
+      · cases evalTree vars f (reduceAll ranks h ps).1 with
+        | ok v => simp
+        | cerr k => rfl
+        | crash e => rfl
+        | oom w => rfl
+  | cerr k => rfl
+  | crash e => rfl
+  | oom w => rfl
 
 end Duckling.Props.C04
